@@ -281,7 +281,7 @@ def evaluate(sc):
                         out.append(
                             violation(
                                 "C10/changed-without-fixable-failure",
-                                "C10/changed-without-fixable-failure|input=%s" % ("empty" if not initial[name] else "nonempty"),
+                                "C10/changed-without-fixable-failure|input=%s" % ("empty" if not initial[name] else "has-pragma" if b"pyml " in initial[name] else "other"),
                                 {"op_index": index, "file": name, "document": op["labels"].get(name), "scan_rules": sorted(rules), "before": repr(initial[name])[:200], "after": repr(tree.get(name))[:200]},
                             )
                         )
